@@ -38,6 +38,57 @@ fn load_in_pool(bytes: &[u8], threads: usize) -> Result<String, String> {
 #[cfg(not(feature = "par"))]
 fn load_in_pool(bytes: &[u8], _threads: usize) -> Result<String, String> { load_with_order(bytes, None) }
 
+/// one object stream whose index may repeat object numbers; cross-reference stream with type-2 entries
+fn craft_objstm_file(pairs: &[(u32, Object)]) -> Vec<u8> {
+    let mut body = vec![]; let mut index = String::new();
+    for (n, o) in pairs { index.push_str(&format!("{} {} ", n, body.len())); lopdf::verif_api::Writer::write_object(&mut body, o).unwrap(); body.push(b' '); }
+    let first = index.len();
+    let mut content = index.into_bytes(); content.extend_from_slice(&body);
+    let mut f = b"%PDF-1.5\n".to_vec();
+    let off1 = f.len(); f.extend_from_slice(b"1 0 obj\n<</Type/Catalog>>\nendobj\n");
+    let off2 = f.len(); f.extend_from_slice(format!("2 0 obj\n<</Type/ObjStm/N {}/First {}/Length {}>>\nstream\n", pairs.len(), first, content.len()).as_bytes());
+    f.extend_from_slice(&content); f.extend_from_slice(b"\nendstream\nendobj\n");
+    let off3 = f.len();
+    let mut nums: Vec<u32> = pairs.iter().map(|p| p.0).collect(); nums.sort(); nums.dedup();
+    let size = nums.last().copied().unwrap_or(3) + 1;
+    let mut rows: Vec<u8> = vec![];
+    for (t, a, b) in [(0u8, 0u16, 0u16), (1, off1 as u16, 0), (1, off2 as u16, 0), (1, off3 as u16, 0)] { rows.push(t); rows.extend_from_slice(&a.to_be_bytes()); rows.extend_from_slice(&b.to_be_bytes()); }
+    let mut index_arr = String::from("0 4");
+    for n in &nums { let idx = pairs.iter().rposition(|p| p.0 == *n).unwrap() as u16; rows.push(2); rows.extend_from_slice(&2u16.to_be_bytes()); rows.extend_from_slice(&idx.to_be_bytes()); index_arr.push_str(&format!(" {} 1", n)); }
+    f.extend_from_slice(format!("3 0 obj\n<</Type/XRef/Size {}/W[1 2 2]/Index[{}]/Root 1 0 R/Length {}>>\nstream\n", size, index_arr, rows.len()).as_bytes());
+    f.extend_from_slice(&rows); f.extend_from_slice(format!("\nendstream\nendobj\nstartxref\n{}\n%%EOF", off3).as_bytes());
+    f
+}
+/// many pairs of in-use entries whose objects carry the SAME `n 0 obj` header with different content
+fn craft_alias_file(r: &mut Rng) -> Vec<u8> {
+    let pairs = 5 + r.usize(60);
+    let mut f = b"%PDF-1.4\n".to_vec(); let mut offs: Vec<usize> = vec![];
+    offs.push(f.len()); f.extend_from_slice(b"1 0 obj\n<</Type/Catalog>>\nendobj\n");
+    for k in 0..pairs {
+        let id = 2 + 2 * k;                       // header id of both copies
+        offs.push(f.len()); f.extend_from_slice(format!("{} 0 obj\n(first {})\nendobj\n", id, k).as_bytes());
+        offs.push(f.len()); f.extend_from_slice(format!("{} 0 obj\n(second {})\nendobj\n", id, k).as_bytes());
+    }
+    let x = f.len();
+    f.extend_from_slice(format!("xref\n0 {}\n0000000000 65535 f \n", offs.len() + 1).as_bytes());
+    for o in &offs { f.extend_from_slice(format!("{:010} 00000 n \n", o).as_bytes()); }
+    f.extend_from_slice(format!("trailer\n<</Size {}/Root 1 0 R>>\nstartxref\n{}\n%%EOF", offs.len() + 1, x).as_bytes());
+    f
+}
+/// the document must be the same on every pool size, repeatedly, and equal to the model's sequential semantics
+fn order_independent(c: &mut Ctx, file: &[u8], stream: &str, pool_loads: &mut u64) {
+    let base = match load_with_order(file, None) { Ok(d) => d, Err(e) => { c.oracle_fail("load-error", &format!("{}: {}", stream, e), json!({"file": hex(file)})); return; } };
+    c.nontrivial(&hex(&file[file.len().saturating_sub(48)..]));
+    c.count(&format!("{}.cases", stream));
+    c.corr(format!("load {}", hex_tok(file)), load_reply(file));
+    for t in [1usize, 2, 3, 4, 8, 16] {
+        for _rep in 0..3 {
+            *pool_loads += 1;
+            match load_in_pool(file, t) { Ok(d) => if d != base { c.oracle_fail("schedule-dependent", &format!("{}: load on a pool of {} threads differs from the first load", stream, t), json!({"file": hex(file)})); return; }, Err(e) => { c.oracle_fail("schedule-dependent", &e, json!({})); return; } }
+        }
+    }
+}
+
 pub fn run(c: &mut Ctx) {
     c.rule = "files with 1..6 object-stream containers (reference writer; plain and multi-revision, zero-length streams, indirect Lengths), \
 no object number in two containers in the main stream: EVERY permutation of the container blocks through hook H1 (<=4 containers quick, <=6 thorough) \
@@ -89,6 +140,21 @@ run in the no-default-features (sequential) build. Non-trivial = file with >= 2 
             }
         }
         if i < 2 { c.sample(json!({"containers": n, "file_len": w.bytes.len(), "revisions": revs.len()})); }
+    }
+    // ---- one object stream that lists the same number more than once (the last listed member wins), and
+    // ---- cross-reference entries that alias one object id (the later entry wins): both are decided by the
+    // ---- ORDER of rayon's collects, so every pool size must give the sequential result = the model's
+    for i in 0..c.n(60, 600) {
+        let Some(mut r) = c.case("dup_in_stream", i) else { continue };
+        let n = 4 + r.usize(60);
+        let pairs: Vec<(u32, Object)> = (0..n).map(|k| (10 + r.below(1 + n as u64 / 3) as u32, Object::Integer(k as i64))).collect();
+        let file = craft_objstm_file(&pairs);
+        order_independent(c, &file, "dup_in_stream", &mut pool_loads);
+    }
+    for i in 0..c.n(60, 600) {
+        let Some(mut r) = c.case("alias_entries", i) else { continue };
+        let file = craft_alias_file(&mut r);
+        order_independent(c, &file, "alias_entries", &mut pool_loads);
     }
     // ---- witness F-C08-a: the same number in two containers -> two orders, two documents
     if let Some(mut r) = c.case("witness", 0) {
